@@ -3,7 +3,7 @@
  "name": "p2_encrypted_name_detect",
  "props": ["C02"],
  "level": "U",
- "tier": "wip",
+ "tier": "quick",
  "harness": "h_encr_detect",
  "enforce": ["encrypted_check_name"],
  "includes": ["e2fsck", "lib/support"],
@@ -19,7 +19,7 @@
  "name": "p2_encrypted_name_sound",
  "props": ["C05"],
  "level": "U",
- "tier": "wip",
+ "tier": "quick",
  "harness": "h_encr_sound",
  "enforce": ["encrypted_check_name"],
  "includes": ["e2fsck", "lib/support"],
@@ -35,7 +35,7 @@
  "name": "p2_encrypted_name_verdict",
  "props": ["C01"],
  "level": "U",
- "tier": "wip",
+ "tier": "quick",
  "harness": "h_encr_verdict",
  "enforce": ["encrypted_check_name"],
  "includes": ["e2fsck", "lib/support"],
@@ -52,14 +52,14 @@
  "name": "p2_encoded_name_converge_B8",
  "props": ["C01"],
  "level": "B(8)",
- "tier": "wip",
+ "tier": "quick",
  "harness": "h_enc_converge",
  "includes": ["e2fsck", "lib/support"],
  "sources": ["lib/ext2fs/dir_iterate.c"],
  "unwind": 10,
  "unwind_reason": "BOUNDED stand-in: names of at most 8 bytes (the three loops involved run name_len times); enough to exhibit the defect and to test the proposed fix",
  "functions": ["e2fsck/pass2.c:encoded_check_name", "e2fsck/pass2.c:check_name"],
- "assumes": ["EXPECTED TO FAIL on the unchanged tree: finding C01_encoded_name_two_runs",
+ "assumes": ["failed on the pinned tree (finding C01_encoded_name_two_runs, repaired by a fix: commit); green since",
 	     "names of at most 8 bytes (bounded)",
 	     "ctx->fs->encoding is an NLS table whose validator is the ASCII-only instance of the ext2fs_nls_ops.validate interface (stops at NUL or len, reports the first byte >= 0x80); it behaves like utf8_validate on every string made of ASCII and 0xff bytes",
 	     "264-byte window view of the scan buffer (p2_common.h); call-site facts of check_dir_block; fix_problem answers yes in the first run"],
@@ -71,7 +71,7 @@
  "name": "p2_encoded_name_sound",
  "props": ["C05"],
  "level": "U",
- "tier": "wip",
+ "tier": "quick",
  "harness": "h_enc_sound",
  "enforce": ["encoded_check_name"],
  "loop_contracts": true,
@@ -85,6 +85,7 @@
 	     "ctx->fs->encoding is an NLS table whose validator is the ASCII-only instance of the ext2fs_nls_ops.validate interface (stops at NUL or len, reports the first byte >= 0x80); healthy name = every byte is ASCII, none is '/' or NUL",
 	     "fix_problem answers are arbitrary (IN.choice)",
 	     "needs the loop anchor VERIF_LOOP(VERIF_INV_PASS2_CHECK_NAME) in e2fsck/pass2.c (hooks-pending/pass2.diff)"],
+ "backend": "cadical",
  "native": false
 }
 */
@@ -93,7 +94,7 @@
  "name": "p2_encoded_name_detect",
  "props": ["C02"],
  "level": "U",
- "tier": "wip",
+ "tier": "quick",
  "harness": "h_enc_detect",
  "enforce": ["encoded_check_name"],
  "loop_contracts": true,
@@ -324,7 +325,7 @@ void h_enc_detect(void)
 	verif_k = IN.k;
 	verif_g0 = w.b0;
 	verif_g2 = bad_char ? IN.j : 255;
-	verif_g3 = bad_enc ? 1 : 0;
+	verif_g3 = 0;		/* check_name runs before the encoding validator (order since the C01 fix): nothing is logged yet when its loop starts */
 
 	r = encoded_check_name(w.ctx, w.dirent, &w.pctx);
 	CHECK(p2_nserious >= 1, "a malformed encoded name raises at least one problem without PR_NO_OK");
